@@ -2872,3 +2872,10 @@ def combinations_apply_member_wise(ctx):
             kind not in bad,
             bad.get(kind, "") + ": a nested combination is not asked as a whole (its members are tested as if they were members of the outer one)",
         )
+
+
+# ---------------------------------------------------------------------------------------- every placement of the call
+def every_placement_of_the_call_compiles(ctx):
+    from . import placements
+
+    placements.law(ctx)
